@@ -574,6 +574,7 @@ class Interp:
         if ci.node is None:
             return Obj(ci)
         o = Obj(ci)
+        o.constructed = True
         init = ci.find("methods", "__init__", self.classes)
         if init is not None:
             fd, owner = init
@@ -646,6 +647,22 @@ class Interp:
 
     no_contract = frozenset()
 
+    def class_assigns(self, ci, name, seen=None):
+        """does the class (or a base) assign self.<name> anywhere?"""
+        seen = seen if seen is not None else set()
+        if ci is None or id(ci) in seen:
+            return False
+        seen.add(id(ci))
+        if ci.node is not None:
+            for n in ast.walk(ci.node):
+                if isinstance(n, ast.Attribute) and isinstance(n.ctx, ast.Store) and n.attr == name \
+                        and isinstance(n.value, ast.Name) and n.value.id == "self":
+                    return True
+                if isinstance(n, ast.Call) and isinstance(n.func, ast.Name) and n.func.id == "setattr" and len(n.args) >= 2 \
+                        and isinstance(n.args[1], ast.Constant) and n.args[1].value == name:
+                    return True
+        return any(self.class_assigns(self.classes.get(b), name, seen) for b in ci.bases)
+
     # ------------------------------------------------------------------ attributes
     def getattr(self, v, name):
         if isinstance(v, Obj):
@@ -666,6 +683,10 @@ class Interp:
                 if name in owner.classmethods:
                     return BoundMethod(v.cls, fv)
                 return BoundMethod(v, fv)
+            if not getattr(v, "constructed", False) and self.class_assigns(v.cls, name):
+                # the object was assembled field by field by a verification fixture, not by its constructor: a field the
+                # class itself assigns somewhere (a new cache, say) is missing from the FIXTURE, not from the object
+                raise ModelError("the fixture of %s does not define the field '%s' that the class assigns" % (v.cls.name, name))
             raise PyRaise("AttributeError", "'%s' object has no attribute '%s'" % (v.cls.name, name))
         if isinstance(v, ClassInfo):
             m = v.find("methods", name, self.classes)
